@@ -850,6 +850,11 @@ class PoolLab(object):
                 act = ('reply', ['450', '451', '452', '550', '552', '554'][int(U(s, 'c', key) * 6)])
             elif 'close' in mix and u > 0.95:
                 act = ('close',)
+            elif 'oddcode' in mix and 0.2 <= u < (0.5 if stage.startswith('eod') else 0.3) and \
+                    (stage != 'data' or 'odddata' in mix):
+                # a reply that is neither 2xx nor an error: 1xx / 3xx (and a code outside 1xx-5xx); the transaction
+                # has failed all the same and must be reset before the connection carries the next message
+                act = ('reply', ['150', '199', '334', '354', '354', '399', '650'][int(U(s, 'oc', key) * 7)])
         elif stage in ('banner', 'ehlo', 'rset', 'quit'):
             if 'close' in mix and u > 0.93:
                 act = ('close',)
